@@ -14,6 +14,7 @@ import asyncio
 import copy
 import json
 import random
+import re
 
 from . import common, gen, execgen, c01, c08, c16, sched
 from .c04 import fresh_schema_name
@@ -106,8 +107,8 @@ def group_strategy(name, rng, n):
 def canon_errors(resp):
     out = []
     for e in (resp or {}).get("errors") or []:
-        out.append(json.dumps([e.get("path"), e.get("message"), e.get("locations"), e.get("extensions")],
-                              sort_keys=True, default=repr))
+        msg = re.sub(r"0x[0-9a-fA-F]+", "0x", str(e.get("message")))      # object addresses inside engine-authored texts
+        out.append(json.dumps([e.get("path"), msg, e.get("locations"), e.get("extensions")], sort_keys=True, default=repr))
     return sorted(out)
 
 
